@@ -464,29 +464,41 @@ Proof.
   apply existsb_exists in I as [x [IX EX]]. apply String.eqb_eq in EX. subst x. destruct (IH _ CR) as [A B].
   split; [constructor; assumption|]. cbn [forallb]. rewrite W, B. reflexivity.
 Qed.
+(** the sections of [ks] in any object [X] that holds, for each of them, what the reader left *)
+Theorem prog_secs_canon d ks X : chain_ok d ks (start_state d) = true -> idem_chain d ks (start_state d) = true ->
+  autough2 X = autough2 d -> map b_name (blocks X) = map b_name (blocks d) ->
+  (forall k, In k ks -> exists pre post, ks = (pre ++ k :: post)%list /\ same_for k X (push k (supd k d (final d pre (start_state d))))) ->
+  flat_map (prog_sec X) ks = map citem0 (flat_map (prog_sec d) ks) /\ forallb (wfw_sec X) ks = true.
+Proof.
+  intros CH ID AX BN SAME.
+  assert (P : forall k, In k ks -> prog_sec X k = map citem0 (prog_sec d k) /\ wfw_sec X k = true).
+  { intros k IK. destruct (SAME k IK) as [pre [post [E SF]]].
+    assert (IC := ID). rewrite E in IC. apply idem_chain_split in IC as [IX [IS WW]].
+    apply (prog_sec_canon d k (final d pre (start_state d)) X IX); auto.
+    rewrite E in CH. apply (chain_ok_split d pre k post _ CH). }
+  split.
+  - assert (Q : forall l, (forall k, In k l -> In k ks) -> flat_map (prog_sec X) l = map citem0 (flat_map (prog_sec d) l)).
+    { induction l as [|k l IH]; intro SUB; [reflexivity|]. cbn [flat_map]. rewrite map_app.
+      rewrite (proj1 (P k (SUB k (or_introl eq_refl)))). f_equal. apply IH. intros k' I. apply SUB. right. exact I. }
+    apply Q. auto.
+  - rewrite forallb_forall. intros k I. apply P. exact I.
+Qed.
 Theorem prog_file_canon d ks : chain_ok d ks (start_state d) = true -> idem_ok d ks = true ->
   prog_file (reread d ks) ks = map citem0 (prog_file d ks) /\ forallb (wfw_sec (reread d ks)) ks = true.
 Proof.
   intros CH ID. unfold idem_ok in ID. apply andb_prop in ID as [ID BN]. apply andb_prop in ID as [ID AX]. apply andb_prop in ID as [ID ND]. apply all_distinct_nodup in ND.
   apply Bool.eqb_prop in AX. apply strs_eqb_eq in BN.
-  assert (P : forall k, In k ks -> prog_sec (reread d ks) k = map citem0 (prog_sec d k) /\ wfw_sec (reread d ks) k = true).
+  assert (SAME : forall k, In k ks -> exists pre post, ks = (pre ++ k :: post)%list /\ same_for k (reread d ks) (push k (supd k d (final d pre (start_state d))))).
   { intros k IK. destruct (in_split k ks IK) as [pre0 [post0 E0]].
     assert (IC := ID). rewrite E0 in IC. apply idem_chain_split in IC as [IX _].
-    destruct (same_for_final k IX ks d (start_state d) (end_keyword d) ND IK) as [pre [post [E SF]]].
-    assert (IC := ID). rewrite E in IC. apply idem_chain_split in IC as [_ [IS WW]].
-    apply (prog_sec_canon d k (final d pre (start_state d)) (reread d ks) IX); auto.
-    rewrite E in CH. apply (chain_ok_split d pre k post _ CH). }
-  split.
-  - unfold prog_file. cbn [map citem]. rewrite map_app. cbn [map citem].
-    destruct (title_final d ks (start_state d)) as [TT TE].
-    assert (T1 : title (reread d ks) = strip (title d)) by (unfold reread; transitivity (title (final d ks (start_state d))); [destruct (final d ks (start_state d)); reflexivity|rewrite TT; reflexivity]).
-    assert (T2 : end_keyword (reread d ks) = end_keyword d) by (unfold reread; destruct (final d ks (start_state d)); reflexivity).
-    rewrite T1, T2. unfold strip at 1. rewrite strip_by_idem. fold (strip (title d)). f_equal. f_equal.
-    assert (Q : forall l, (forall k, In k l -> In k ks) -> flat_map (prog_sec (reread d ks)) l = map citem0 (flat_map (prog_sec d) l)).
-    { induction l as [|k l IH]; intro SUB; [reflexivity|]. cbn [flat_map]. rewrite map_app.
-      rewrite (proj1 (P k (SUB k (or_introl eq_refl)))). f_equal. apply IH. intros k' I. apply SUB. right. exact I. }
-    apply Q. auto.
-  - rewrite forallb_forall. intros k I. apply P. exact I.
+    exact (same_for_final k IX ks d (start_state d) (end_keyword d) ND IK). }
+  destruct (prog_secs_canon d ks (reread d ks) CH ID AX BN SAME) as [Q W].
+  split; [|exact W].
+  unfold prog_file. cbn [map citem]. rewrite map_app. cbn [map citem].
+  destruct (title_final d ks (start_state d)) as [TT TE].
+  assert (T1 : title (reread d ks) = strip (title d)) by (unfold reread; transitivity (title (final d ks (start_state d))); [destruct (final d ks (start_state d)); reflexivity|rewrite TT; reflexivity]).
+  assert (T2 : end_keyword (reread d ks) = end_keyword d) by (unfold reread; destruct (final d ks (start_state d)); reflexivity).
+  rewrite T1, T2. unfold strip at 1. rewrite strip_by_idem. fold (strip (title d)). f_equal. f_equal. exact Q.
 Qed.
 
 (** ** the theorems *)
